@@ -48,6 +48,29 @@ STRENGTHENED = {
     "C17-3": "line-level description strings (indentation x words) ; also C08",
     "C17-4": "schemas in which one GraphQLDefaultInput object is shared by inputs of different types",
     "C17-6": "input type with a non-null field that has its own default (left out of every value)",
+    # wave 4
+    "C01-5": "caught by C14 (fragment-pair memo); the C01 request family has no three-fragment cycle first compared under exclusive parents",
+    "C02-7": "caught by C15 (shared default object across wrappings x application orders)",
+    "C03-8": "request item_error_nonnull_items (asynchronously failing item below [T!], items given synchronously)",
+    "C06-9": "",
+    "C07-8": "payload with a non-null failure next to an asynchronously failing sibling; leftover gates completed before the leak check",
+    "C07-9": "source kind iter_aclose_truthy (aclose() returns a truthy value)",
+    "C08-7": "long strings around the 70/80 character thresholds, both literal forms in both orders within one process",
+    "C09-7": "hand documents with every literal kind followed by every token kind (float literals need 2 grammar deviations)",
+    "C11-6": "kind-specific handlers verify the kind of the node they are given (all handlers used to be one function)",
+    "C11-7": "action 'same': the handler returns the very node object it was given",
+    "C13-8": "caught by C14 - same change as C13-2 at another site",
+    "C13-9": "caught by C02 - same change as C13-3",
+    "C14-7": "argument-equality family: ordered pairs of 40 argument forms (keys differing only in case, numbered keys) x 3 positions",
+    "C15-5": "fragment-variable scoping states (fragment declares $v: absent / null / valid) for every variable-bearing literal",
+    "C15-6": "one GraphQLDefaultInput shared by 5 wrappings of a type x every application order (120) x value/literal entry",
+    "C15-7": "non-dict mappings (MappingProxyType, ChainMap, UserDict, custom Mapping ...) in every input-object position",
+    "C16-5": "NOT CAUGHT on purpose: the reference reads a value-less member as 'the name is the value', under which both answers are legal (4.2)",
+    "C17-9": "Int defaults given as integral Python floats (25.0, 1e3); reference fingerprint corrected to accept them",
+    "C18-6": "programmatic schema with value-based partial object defaults (non-null field with own default left out)",
+    "C18-7": "SDL schemas with delicate string defaults (tab / space led block strings, > 70 characters, trailing quote / backslash); also C08, C17",
+    "C20-7": "build mode split_base_av: base built with assume_valid=True, then extended",
+    "C20-8": "five request shapes (syntax error, empty, invalid, unknown operation, bad variables) against every invalid schema",
     "C20-3": "schemas derived (to_kwargs / sort / extend) from an already validated invalid schema",
     "C20-5": "default cycles through lists nested inside a default object (3 entries + 1 legal near miss)",
 }
